@@ -4,7 +4,8 @@
    rcpthosts = example.org, .sub.example.org; users alice, bob, list in example.org; DNS as harness/session/fakedns.c. *)
 open M
 
-let str_of_bytes (l : n list) = String.init (List.length l) (fun i -> Char.chr (int_of_n (List.nth l i) land 255))
+let str_of_bytes (l : n list) =
+  let b = Buffer.create 256 in List.iter (fun x -> Buffer.add_char b (Char.chr (int_of_n x land 255))) l; Buffer.contents b
 let bytes_of_str (s : string) : n list = List.init (String.length s) (fun i -> n_of_int (Char.code s.[i]))
 
 let parse_cfg (s : string) =
@@ -117,7 +118,8 @@ let show_events (evs : event list) : string =
       | Reply c -> Some ("r" ^ string_of_int (int_of_n c))
       | Handoff (e, m) -> None
       | Closed -> closed := true; None
-      | EStuck -> Some "STUCK") evs in
+      | EStuck -> Some "STUCK"
+      | Note _ -> None) evs in
   let hand = List.filter_map (function Handoff (e, m) -> Some ("Q" ^ hex_of_bytes e ^ "/" ^ hex_of_bytes m) | _ -> None) evs in
   String.concat " " (toks @ hand @ [if !closed then "closed" else "open"])
 
@@ -127,7 +129,99 @@ let model fs = match fs with
       show_events (run_session (make_oracles cfg) (List.map bytes_of_hex chunks))
   | _ -> "BADCASE"
 
-let spec fs obs = "ok"
+(* ---- the extracted trace checkers applied to an observation of the IMPLEMENTATION ----
+   Only for "simple" cases: every segment is one well-formed command line, or the payload of a DATA that got 354
+   (complete lines, ends with the lone dot, no anomalies), and every HELO/EHLO is accepted.  Then the i-th reply
+   belongs to the i-th segment and the ghost notes can be reconstructed from command text + reply code:
+   a 2xx to MAIL/RCPT means "accepted".  Anything else is left to the model-vs-implementation comparison ("pre"). *)
+let upper = String.uppercase_ascii
+let is_simple_line (c : string) =
+  let n = String.length c in
+  n >= 2 && n <= 512 && String.sub c (n - 2) 2 = "\r\n"
+  && (let body = String.sub c 0 (n - 2) in
+      not (String.contains body '\r') && not (String.contains body '\n')
+      && String.for_all (fun ch -> Char.code ch > 0 && Char.code ch < 128) body)
+let payload_ok (c : string) =
+  (* lines all CRLF terminated, each <= 998, last line is ".", no earlier lone dot *)
+  let n = String.length c in
+  n >= 3 && String.sub c (n - 3) 3 = ".\r\n" && (n = 3 || String.sub c (n - 5) 2 = "\r\n")
+  && (let lines = String.split_on_char '\n' (String.sub c 0 (n - 3)) in
+      List.for_all (fun l -> l = "" || (l.[String.length l - 1] = '\r'
+                                         && not (String.contains (String.sub l 0 (String.length l - 1)) '\r')
+                                         && String.length l <= 999 && l <> ".\r")) lines)
+
+exception Not_simple
+let spec_session cfgs chunks obs =
+  let cfg = parse_cfg cfgs in
+  let o = make_oracles cfg in
+  let replies = List.filter_map (fun t -> if String.length t = 4 && t.[0] = 'r' then Some (int_of_string (String.sub t 1 3)) else None) obs in
+  let hand = List.filter_map (fun t -> if String.length t > 1 && t.[0] = 'Q' then
+                                 (match String.index_opt t '/' with
+                                  | Some i -> Some (bytes_of_hex (String.sub t 1 (i - 1)), bytes_of_hex (String.sub t (i + 1) (String.length t - i - 1)))
+                                  | None -> None) else None) obs in
+  if List.exists (fun t -> t = "CRASH" || t = "TIMEOUT" || (String.length t > 3 && String.sub t 0 3 = "sig")) obs then "bad:crash" else
+  try
+    let rs = ref (match replies with 220 :: r -> r | _ -> raise Not_simple) in
+    let hs = ref hand in
+    let next () = match !rs with r :: t -> rs := t; r | [] -> raise Not_simple in
+    let evs = ref [Reply (n_of_int 220)] in
+    let emit l = evs := !evs @ l in
+    let k = ref 0 in
+    let rec go = function
+      | [] -> ()
+      | c :: rest ->
+          if not (is_simple_line c) then raise Not_simple;
+          let line = String.sub c 0 (String.length c - 2) in
+          let u = upper line in
+          let r = next () in
+          let rep = Reply (n_of_int r) in
+          if starts_with u "HELO " || starts_with u "EHLO " then
+            (if r = 250 then emit [Note NBoundary; Note NHelo; rep] else raise Not_simple; go rest)
+          else if starts_with u "MAIL FROM:" then begin
+            (if r / 100 = 2 then
+               (match o_addr false (bytes_of_str (String.sub line 10 (String.length line - 10))) with
+                | AP_ok (a, _, _) -> emit [Note (NMail a); rep]
+                | _ -> emit [Note (NMail (bytes_of_str "?")); rep])
+             else emit [rep]); go rest end
+          else if starts_with u "RCPT TO:" then begin
+            let arg = bytes_of_str (String.sub line 8 (String.length line - 8)) in
+            (match o_addr true arg with
+             | AP_ok (a, None, cls) ->
+                 if r / 100 = 2 && r <> 252 then emit [Note (NRcpt (a, cls)); rep]
+                 else if r = 550 then emit [Note NWithdraw; rep]       (* second recipient of a bounce *)
+                 else emit [rep]
+             | _ -> if r / 100 = 2 then emit [Note (NRcpt (bytes_of_str "?", RNotLocal)); rep] else emit [rep]);
+            go rest end
+          else if u = "DATA" then begin
+            if r = 354 then begin
+              emit [Note (NData (nat_of_int !k)); rep]; incr k;
+              (match rest with
+               | p :: rest' ->
+                   if not (payload_ok p) then raise Not_simple;
+                   let r2 = next () in
+                   if r2 = 250 then
+                     (match !hs with
+                      | (e, m) :: t -> hs := t; emit [Handoff (e, m); Note NBoundary; Reply (n_of_int r2)]
+                      | [] -> emit [Note NBoundary; Handoff ([], []); Reply (n_of_int r2)])   (* 250 without a hand-off: rejected by queue_run *)
+                   else emit [Note NBoundary; Reply (n_of_int r2)];
+                   go rest'
+               | [] -> ())
+            end else (emit [rep]; go rest) end
+          else if u = "RSET" then (emit (if r = 250 then [Note NBoundary; rep] else [rep]); go rest)
+          else if u = "QUIT" then (emit [rep; Closed]; if rest <> [] then raise Not_simple)
+          else if u = "NOOP" || starts_with u "VRFY" then (emit [rep]; go rest)
+          else raise Not_simple in
+    go chunks;
+    let bad = ref [] in
+    if !hs <> [] then bad := "handoff-without-250" :: !bad;
+    (match trace_run o !evs a_init with None -> bad := "trace" :: !bad | Some _ -> ());
+    (match queue_run o !evs QIdle with None -> bad := "queue" :: !bad | Some _ -> ());
+    if !bad = [] then "ok" else "bad:" ^ String.concat "," (List.rev !bad)
+  with Not_simple -> "pre"
+
+let spec fs obs = match fs with
+  | "5e" :: cfg :: chunks -> spec_session (str_of_bytes (bytes_of_hex cfg)) (List.map (fun c -> str_of_bytes (bytes_of_hex c)) chunks) obs
+  | _ -> "BADCASE"
 
 let () =
   match Sys.argv.(1) with
